@@ -196,7 +196,10 @@ def spec_of(cfg):
         user['transformer'] = e.transformer
     if e.postlex:
         user['postlex'] = e.postlex
-    return {'name': cfg, 'grammar': e.grammar, 'options': opts, 'user': user, 'input_kind': e.input_kind}
+    spec = {'name': cfg, 'grammar': e.grammar, 'options': opts, 'user': user, 'input_kind': e.input_kind}
+    if getattr(e, 'package', None):
+        spec['package'] = list(e.package)
+    return spec
 
 
 class _E:
@@ -219,6 +222,18 @@ def _split_opts(spec, d=None):
         user['postlex'] = W.make_postlex(u['postlex'])
     opts = dict(plain, **user)
     return _E(spec.get('input_kind', 'str')), opts, plain, user
+
+
+def _mk(spec, e, opts):
+    """the way this case's program creates its parser: Lark(text, ...) or, for a grammar shipped in a package, Lark.open_from_package"""
+    from lark import Lark
+    if spec.get('package'):
+        import sys
+        pk = os.path.join(os.path.dirname(os.path.abspath(__file__)), 'pkgs')
+        if pk not in sys.path:
+            sys.path.append(pk)
+        return Lark.open_from_package(*spec['package'], **opts)
+    return Lark(e.grammar, **opts)
 
 
 def _cache_store(d, P):
@@ -262,15 +277,15 @@ def node(job):
         cache_arg = True if spec.get('cache_by_key') else P['cache']
         try:
             if do == 'build':
-                p = Lark(e.grammar, **opts)
+                p = _mk(spec, e, opts)
                 if st.get('warm'):
                     beh(p, e, probes, _lark_ns())       # the instance is USED before it is saved: lazily cached values are then serialised filled-in
                 with open(P['save'], 'wb') as f:
                     p.save(f)
-                Lark(e.grammar, cache=cache_arg, **opts)
+                _mk(spec, e, dict(opts, cache=cache_arg))
                 if st.get('standalone', True):
                     from lark.tools.standalone import gen_standalone
-                    q = Lark(e.grammar, **plain)                 # the generator cannot embed user objects; they are given at load time
+                    q = _mk(spec, e, plain)                 # the generator cannot embed user objects; they are given at load time
                     if st.get('warm') and not user:
                         beh(q, e, probes, _lark_ns())
                     for key, comp in (('sa', False), ('sac', True)):
@@ -300,7 +315,7 @@ def node(job):
                         raise RuntimeError('standalone command line failed: ' + r.stderr[-300:])
                 tr[cfg + ':built-direct'] = beh(p, e, probes, _lark_ns())
             elif do == 'direct':
-                tr[cfg + ':direct'] = beh(Lark(e.grammar, **opts), e, probes, _lark_ns())
+                tr[cfg + ':direct'] = beh(_mk(spec, e, opts), e, probes, _lark_ns())
             elif do == 'load':
                 with open(P['save'], 'rb') as f:
                     p = Lark.load(f)
@@ -317,7 +332,7 @@ def node(job):
                         p.save(f)
             elif do == 'cache':
                 before = _cache_store(d, P)
-                p = Lark(e.grammar, cache=cache_arg, **opts)
+                p = _mk(spec, e, dict(opts, cache=cache_arg))
                 t = beh(p, e, probes, _lark_ns())
                 t.append({'cache_untouched': _cache_store(d, P) == before})
                 tr[cfg + ':cache'] = t
